@@ -148,6 +148,15 @@ func (e *Engine) lemmaObligations(lm *Lemma) (obls []*Obligation, err error) {
 		}
 		hyps = append(hyps, x.lemmaQuantified(ul))
 	}
+	if len(lm.By) > 0 {
+		benv := &CEnv{x: x, pkg: e.pkgTypes[lm.Pkg], bound: vals, specMode: true}
+		for _, call := range lm.By {
+			if e.lemmas[call.Name] == nil || !e.declaredBefore(call.Name, lm.Name) {
+				return nil, fmt.Errorf("lemma %s: by %s: unknown lemma or not declared earlier", lm.Name, call.Name)
+			}
+			hyps = append(hyps, x.lemmaInstance(benv, call))
+		}
+	}
 	for i, part := range splitGoal(ens) {
 		name := fmt.Sprintf("lemma.%s#%d", lm.Name, i+1)
 		obls = append(obls, &Obligation{Name: name, Func: "lemma." + lm.Name, Kind: "lemma", Hyps: hyps, Goal: part, X: x,
@@ -222,4 +231,16 @@ func (x *Exec) lemmaInstance(env *CEnv, call *CExpr) *Term {
 	}
 	req, ens := x.lemmaFormula(lm, vals)
 	return Implies(req, ens)
+}
+
+func (e *Engine) declaredBefore(a, b string) bool {
+	for _, n := range e.lemmaOrder {
+		if n == a {
+			return true
+		}
+		if n == b {
+			return false
+		}
+	}
+	return false
 }
